@@ -256,7 +256,7 @@ class RuntimeName(Name, Object, Callable):
         if isinstance(self.value, type):
             try:
                 self._instance = RuntimeName('__none__', self.value())
-            except TypeError:
+            except Exception:
                 pass
 
         return self._instance
